@@ -106,6 +106,30 @@ def _install_hooks():
     except Exception:
       return None
 
+  # buffers handed to the transport's socket wrapper (one call = one frame in the shipped transports), per connection
+  import scales.varz as vz
+  orig_sock_write = vz.VarzSocketWrapper.write
+
+  def sock_write(self, buff):
+    w = V._CUR[0]
+    ent = None
+    if w is not None and hasattr(w, 'sockwrites'):
+      try:
+        g = self._socket.handle
+        ent = [g.port, g._conn.cid if g._conn is not None else None, bytes(buff), False]
+        w.sockwrites.append(ent)
+      except Exception:
+        ent = None
+    r = orig_sock_write(self, buff)
+    if ent is not None:
+      # the call returned normally: the caller may assume the whole buffer is on its way (unless the peer is gone)
+      try:
+        ent[3] = not g._conn.closed_by_peer
+      except Exception:
+        pass
+    return r
+  vz.VarzSocketWrapper.write = sock_write
+
   orig_req = sk.ClientTimeoutSink.AsyncProcessRequest
 
   def ts_req(self, sink_stack, msg, stream, headers):
@@ -271,6 +295,7 @@ def run(spec):
   w.stack_of = {}
   w.ar_of = {}
   w.keep = []
+  w.sockwrites = []
   if spec.get('ping_ticks'):
     # the thriftmux ping loop sleeps random.randint(30, 40) seconds: script it to a few ticks so that keep-alive pings
     # fall inside the run (and inside slow writes)
@@ -444,7 +469,8 @@ def _run(spec, w):
     for port, srv in servers.items():
       for c in srv.conns:
         conns.append({'port': port, 'cid': c.cid,
-                      'writes': [list(d) for (t, p, ci, d) in w.wire if p == port and ci == c.cid],
+                      'writes': [list(e[2]) for e in w.sockwrites if e[0] == port and e[1] == c.cid],
+                      'returned': [bool(e[3]) for e in w.sockwrites if e[0] == port and e[1] == c.cid],
                       'stream': list(c.stream), 'closed': bool(c.closed_by_client or c.closed_by_peer)})
     trace['conns'] = conns
   trace['crashes'] = list(w.crashes)
